@@ -101,7 +101,7 @@ Print Assumptions C05_sparse_channels.
 Theorem C05_sparse_aligned : forall argsort, Argsort_ok argsort -> forall d table r rec cols chans,
   d_cols d = Some table -> nth_error (d_templates d) (r_tid r) = Some cols -> nth_error table (r_tid r) = Some chans ->
   get_template argsort d r = Some rec ->
-  exists sigma, Sparse_channels cols chans sigma rec /\ Sparse_aligned (d_wmi d) cols chans (r_unwhiten r) sigma rec.
+  exists sigma, Sparse_channels cols chans sigma rec /\ Sparse_aligned (d_wmi d) (d_scale d) cols chans (r_unwhiten r) sigma rec.
 Proof.
   intros argsort AS d table r rec cols chans Hc E1 E2 H. unfold get_template in H. rewrite Hc in H.
   destruct (sparse_spec argsort AS d table r rec cols chans E1 E2 H) as (_ & _ & sigma & H1 & H2 & _).
@@ -155,9 +155,9 @@ Theorem C05_sparse_channels_checker_sound : forall cols chans r,
 Proof. exact sparse_channels_b_sound. Qed.
 Print Assumptions C05_sparse_channels_checker_sound.
 
-Theorem C05_sparse_aligned_checker_sound : forall W cols chans unw r,
-  sparse_aligned_b W cols chans unw r = true ->
-  exists sigma, sparse_sigma cols chans r = Some sigma /\ Sparse_aligned W cols chans unw sigma r.
+Theorem C05_sparse_aligned_checker_sound : forall W sc cols chans unw r,
+  sparse_aligned_b W sc cols chans unw r = true ->
+  exists sigma, sparse_sigma cols chans r = Some sigma /\ Sparse_aligned W sc cols chans unw sigma r.
 Proof. exact sparse_aligned_b_sound. Qed.
 Print Assumptions C05_sparse_aligned_checker_sound.
 
@@ -165,7 +165,7 @@ Print Assumptions C05_sparse_aligned_checker_sound.
 Definition ex_ds (cols : option (list (list Z))) : dataset :=
   mkds [ [[0; 5; 0]; [0; 3; 0]; [0; 9; 0]; [0; 7; 0]]; [[0; 0; 1]; [0; 1; 1]; [0; 1; 1]; [0; 1; 1]] ]
        cols
-       [[0; 2; 0; 0]; [1; 0; 0; 0]; [0; 0; 0; -1]; [0; 0; 4; 0]]
+       [[0; 2; 0; 0]; [1; 0; 0; 0]; [0; 0; 0; -1]; [0; 0; 4; 0]] 1
        [mkpos 0 0; mkpos 0 20; mkpos 0 40; mkpos 0 60] [0; 1; 1; 1] 2 (mkthr 0 1).
 
 (* dense, unwhitened: amplitudes of the 4 channels are 3, 10, 28, 9; peak = channel 2; its 2 nearest channels are
@@ -203,7 +203,7 @@ Proof. vm_compute. reflexivity. Qed.
 (* an all-zero sparse template: phylib raises, the model returns None *)
 Example C05_ex_sparse_zero :
   get_template stable_argsort
-    (mkds [[[0; 0]; [0; 0]]; [[1; 0]; [0; 2]]] (Some [[0; 1]; [1; 0]]) [[1; 0]; [0; 1]] [mkpos 0 0; mkpos 0 20] [0; 0] 12 (mkthr 0 1))
+    (mkds [[[0; 0]; [0; 0]]; [[1; 0]; [0; 2]]] (Some [[0; 1]; [1; 0]]) [[1; 0]; [0; 1]] 1 [mkpos 0 0; mkpos 0 20] [0; 0] 12 (mkthr 0 1))
     (mkreq 0 None None true) = None.
 Proof. vm_compute. reflexivity. Qed.
 (* the checker accepts both admissible neighbourhoods of channel 2 under the distance tie, and rejects a farther one *)
@@ -216,3 +216,10 @@ Example C05_ex_checker_tie :
   dense_channels_b P [0; 1; 1; 1] 2 (mkthr 0 1) T 1 [1]%nat = true /\
   dense_channels_b P [0; 1; 1; 1] 3 (mkthr 0 1) T 1 [1; 3]%nat = false.
 Proof. vm_compute. repeat split. Qed.
+(* template_scaling multiplies the unwhitened template (and nothing else) *)
+Example C05_ex_scaling :
+  let d := mkds [ [[0; 5; 0]; [0; 3; 0]]; [[1; 0; 0]; [0; 0; 2]] ] None [[0; 2]; [1; 0]] 3
+                [mkpos 0 0; mkpos 0 20] [0; 0] 12 (mkthr 0 1) in
+  get_template stable_argsort d (mkreq 0 None None true) = Some (mkrec [[0; 30; 0]; [0; 9; 0]] [30; 9] 1 [1; 0]%nat) /\
+  get_template stable_argsort d (mkreq 0 None None false) = Some (mkrec [[0; 5; 0]; [0; 3; 0]] [5; 3] 0 [0; 1]%nat).
+Proof. vm_compute. split; reflexivity. Qed.
